@@ -483,3 +483,70 @@ Proof.
     cbn [app]. rewrite H. unfold ns_held. cbn [flat_map fst snd]. rewrite app_nil_r, <- app_assoc.
     reflexivity.
 Qed.
+
+(* ---------------------------------------------------------------- each message at most once *)
+Definition ns_cm (x : Z) (l : list ns_msg) : nat := count_occ Z.eq_dec (map ns_mid l) x.
+
+Lemma ns_cm_app x a b : ns_cm x (a ++ b) = (ns_cm x a + ns_cm x b)%nat.
+Proof. unfold ns_cm. rewrite map_app. apply count_occ_app. Qed.
+
+Lemma ns_cm_txs_reltx x o : (ns_cm x (ns_txs o) <= ns_cm x (ns_reltx o))%nat.
+Proof.
+  induction o as [|h t IH]; [apply le_n|].
+  replace (ns_txs (h :: t)) with (ns_txs [h] ++ ns_txs t) by (cbn; rewrite app_nil_r; reflexivity).
+  replace (ns_reltx (h :: t)) with (ns_reltx [h] ++ ns_reltx t)
+    by (cbn; rewrite app_nil_r; reflexivity).
+  rewrite !ns_cm_app. destruct h; cbn [ns_txs ns_reltx flat_map app]; try lia.
+  unfold ns_cm at 1. cbn [map count_occ]. lia.
+Qed.
+
+Lemma ns_submit_budget c s m x :
+  (ns_cm x (ns_txs (snd (ns_step c s (NsSubmit m)))) +
+   ns_cm x (ns_held [(NsSubmit m, snd (ns_step c s (NsSubmit m)))])
+   <= (if Z.eq_dec (ns_mid m) x then 1 else 0))%nat.
+Proof.
+  unfold ns_step, ns_submit, ns_held.
+  destruct (ns_open s); cbn [negb].
+  2: { cbn. destruct (Z.eq_dec (ns_mid m) x); lia. }
+  destruct (negb (ns_est s) || ns_con m && (ns_nstart c <=? ns_act s)).
+  - destruct (existsb _ (ns_dq s)); cbn; unfold ns_cm; cbn [map count_occ];
+      destruct (Z.eq_dec (ns_mid m) x); lia.
+  - destruct (ns_con m); cbn; unfold ns_cm; cbn [map count_occ];
+      destruct (Z.eq_dec (ns_mid m) x); lia.
+Qed.
+
+Lemma ns_flat_snd_cons {A B} (e : A) (o : list B) t :
+  flat_map snd ((e, o) :: t) = o ++ flat_map snd t.
+Proof. reflexivity. Qed.
+
+Theorem ns_tx_budget c : ns_wf c -> forall x evs s, ns_inv c s ->
+  (ns_cm x (ns_txs (flat_map snd (ns_trace c s evs))) +
+   ns_cm x (map ns_nmsg (ns_dq (ns_run c s evs)))
+   <= ns_cm x (map ns_nmsg (ns_dq s)) + count_occ Z.eq_dec (ns_sub_mids evs) x)%nat.
+Proof.
+  intros Hwf x. induction evs as [|e r IH]; intros s Hi.
+  - cbn. lia.
+  - rewrite ns_trace_cons, ns_flat_snd_cons, ns_txs_app, ns_cm_app. cbn [ns_run].
+    pose proof (ns_step_rel c s e Hwf Hi) as H.
+    pose proof (ns_step_inv c s e Hwf Hi) as Hi'.
+    specialize (IH _ Hi').
+    destruct e as [m|mid|mid|mid|tok| |rr];
+      try (cbn [ns_sub_mids];
+           match goal with |- context [snd (ns_step ?c ?s ?e)] =>
+             pose proof (ns_cm_txs_reltx x (snd (ns_step c s e))) as Hle end;
+           apply (f_equal (ns_cm x)) in H; rewrite ns_cm_app in H; lia).
+    cbn [ns_sub_mids count_occ].
+    pose proof (ns_submit_budget c s m x) as Hb.
+    apply (f_equal (ns_cm x)) in H. rewrite ns_cm_app in H.
+    destruct (Z.eq_dec (ns_mid m) x); lia.
+Qed.
+
+Theorem ns_tx_once c : ns_wf c -> forall est0 evs,
+  NoDup (ns_sub_mids evs) ->
+  NoDup (map ns_mid (ns_txs (flat_map snd (ns_trace c (ns_init est0) evs)))).
+Proof.
+  intros Hwf est0 evs Hnd. apply (NoDup_count_occ Z.eq_dec). intros x.
+  pose proof (ns_tx_budget c Hwf x evs (ns_init est0) (ns_init_inv c est0 Hwf)) as H.
+  rewrite (NoDup_count_occ Z.eq_dec) in Hnd. specialize (Hnd x).
+  unfold ns_cm in H. cbn [ns_init ns_dq map count_occ] in H. lia.
+Qed.
